@@ -66,7 +66,7 @@ def validate(ck, recs, consts, name, what, expect_ok=True):
     bad = recs[min((v["line"] or 1) - 1, len(recs) - 1)]
     sched = os.path.join(ck.out, name + "_failing_schedule.ndjson")
     core.write_ndjson(sched, [{k: r[k] for k in ("a", "t", "ins", "outs", "c", "ok")} for r in recs[a + 1:b]])
-    ck.violation("circuitmap:%s:%s" % (v["invariant"], bad.get("a")),
+    ck.violation("circuitmap:%s:%s" % ((v["invariant"] or "").replace("invariant ", ""), bad.get("a")),
                  "%s: the real circuit map deviates from spec/CircuitMap (%s) at line %s of the trace, step %s" % (
                      what, v["invariant"], v["line"], str({k: bad.get(k) for k in ("a", "t", "ins", "outs", "c", "ok", "err", "adds", "drops", "fails")})[:400]),
                  files={"trace.ndjson": one, "schedule.ndjson": sched}, text=v["cex"])
